@@ -542,6 +542,93 @@ theorem no_terminate_never_releases (closeWakes : Bool) (sched : List Bool) :
     (trun ⟨handleTimeoutInsidePoolBlock, handleTimeoutClosesBeforeRaise && !true && closeWakes⟩ sched).lock = true :=
   close_must_wake _ (by simp) sched
 
+/-! #### the pool joins its worker; the device answers late (NO_TERMINATE_ON_TIMEOUT) -/
+
+/-- `tstep2` with a joining pool and a silent device is `tstep` -/
+theorem tstep2_eq (o : TOpts) (s : TSt) (t : Bool) : tstep2 o true false s t = tstep o s t := by
+  rcases o with ⟨cbj, cw⟩
+  rcases s with ⟨pc, c, b, l⟩
+  cases cbj <;> cases cw <;> cases pc <;> cases c <;> cases b <;> cases l <;> cases t <;> rfl
+
+/-- **an operation that has ended for its caller is not still running**: if leaving the pool joins the worker
+    (`joins`), then under EVERY schedule, whatever the order of close and join, whether or not the transport is
+    closed / wakes, whether or not the device answers late: once ScrapliTimeout has reached the caller the worker
+    has left the lock context — lock free, nobody of that call still reading or writing. -/
+theorem raised_only_after_release_joins (o : TOpts) (late : Bool) (sched : List Bool) :
+    (trun2 o true late sched).pc = .raised → (trun2 o true late sched).lock = false ∧ (trun2 o true late sched).blocked = false := by
+  let inv : TSt → Bool := fun s => (s.lock == s.blocked) && (s.pc != .raised || !s.blocked) &&
+    (o.closeBeforeJoin || s.pc != .second || !s.blocked)
+  have hstep : ∀ (s : TSt) (t : Bool), inv s = true → inv (tstep2 o true late s t) = true := by
+    intro s t
+    rcases o with ⟨cbj, cw⟩
+    rcases s with ⟨pc, c, b, l⟩
+    cases late <;> cases cbj <;> cases cw <;> cases pc <;> cases c <;> cases b <;> cases l <;> cases t <;> decide
+  have hreach : ∀ (l : List Bool) (s : TSt), inv s = true → inv (l.foldl (tstep2 o true late) s) = true := by
+    intro l
+    induction l with
+    | nil => intro s h; exact h
+    | cons t l ih => intro s h; exact ih _ (hstep s t h)
+  have h := hreach sched {} (by simp [inv])
+  unfold trun2
+  generalize sched.foldl (tstep2 o true late) {} = s at h
+  rcases s with ⟨pc, c, b, l⟩
+  cases pc <;> cases c <;> cases b <;> cases l <;> simp_all [inv]
+
+/-- **without the join it is false** (`shutdown(wait=False)`): with NO_TERMINATE_ON_TIMEOUT (nothing wakes the worker,
+    `closeWakes = false`) the caller has its ScrapliTimeout while the worker still holds the channel lock, blocked
+    in its read — the next operation is blocked by an operation that has already ended, and when the late answer
+    comes the orphaned worker consumes it -/
+theorem no_join_raises_while_lock_held :
+    (trun2 ⟨true, false⟩ false true [true, true, true]).pc = .raised ∧
+    (trun2 ⟨true, false⟩ false true [true, true, true]).lock = true ∧
+    (trun2 ⟨true, false⟩ false true [true, true, true]).blocked = true := by decide
+
+theorem raised_only_after_release_full_refuted :
+    ¬ (∀ (o : TOpts) (joins late : Bool) (sched : List Bool),
+        (trun2 o joins late sched).pc = .raised → (trun2 o joins late sched).lock = false) := by
+  intro h
+  have := h ⟨true, false⟩ false true [true, true, true] no_join_raises_while_lock_held.1
+  rw [no_join_raises_while_lock_held.2.1] at this
+  cases this
+
+/-- NO_TERMINATE_ON_TIMEOUT with a device that answers late and a joining pool: after ANY prefix three fair rounds end
+    with ScrapliTimeout delivered and the lock free (the worker's read returned by itself) — no close needed -/
+theorem late_answer_releases (o : TOpts) (pre : List Bool) :
+    (trun2 o true true (pre ++ fairTail)).pc = .raised ∧ (trun2 o true true (pre ++ fairTail)).lock = false := by
+  let inv : TSt → Bool := fun s => (s.lock == s.blocked) && (s.pc != .raised || !s.blocked) &&
+    (o.closeBeforeJoin || s.pc != .second || !s.blocked)
+  have hstep : ∀ (s : TSt) (t : Bool), inv s = true → inv (tstep2 o true true s t) = true := by
+    intro s t
+    rcases o with ⟨cbj, cw⟩
+    rcases s with ⟨pc, c, b, l⟩
+    cases cbj <;> cases cw <;> cases pc <;> cases c <;> cases b <;> cases l <;> cases t <;> decide
+  have hreach : ∀ (l : List Bool) (s : TSt), inv s = true → inv (l.foldl (tstep2 o true true) s) = true := by
+    intro l
+    induction l with
+    | nil => intro s h; exact h
+    | cons t l ih => intro s h; exact ih _ (hstep s t h)
+  have hfin : ∀ s : TSt, inv s = true →
+      (fairTail.foldl (tstep2 o true true) s).pc = .raised ∧ (fairTail.foldl (tstep2 o true true) s).lock = false := by
+    intro s
+    rcases o with ⟨cbj, cw⟩
+    rcases s with ⟨pc, c, b, l⟩
+    cases cbj <;> cases cw <;> cases pc <;> cases c <;> cases b <;> cases l <;> decide
+  have := hfin _ (hreach pre {} (by simp [inv]))
+  simpa [trun2, List.foldl_append] using this
+
+open Scrapli.Gen.LockCoverage in
+/-- the source (GENERATED): leaving the pool joins the worker -/
+theorem pool_joins_worker : poolJoinsWorker = true := by decide
+
+open Scrapli.Gen.LockCoverage in
+/-- hence for the source as it is: an operation that timed out is over when its caller learns it — every schedule,
+    every setting of NO_TERMINATE_ON_TIMEOUT, every transport, device silent or late -/
+theorem raised_only_after_release_src (o : TOpts) (late : Bool) (sched : List Bool) :
+    (trun2 o poolJoinsWorker late sched).pc = .raised →
+      (trun2 o poolJoinsWorker late sched).lock = false ∧ (trun2 o poolJoinsWorker late sched).blocked = false := by
+  rw [pool_joins_worker]
+  exact raised_only_after_release_joins o late sched
+
 /-- non-vacuity: the straightforward schedule (timeout, close, worker wakes, join) -/
 example : trun ⟨true, true⟩ [true, true, false, true] = ⟨.raised, true, false, false⟩ := by decide
 
